@@ -42,7 +42,9 @@ Definition kind_class (k : tok_kind) : tcl :=
       | KPeriod => CDot
       | KLeftBracket => CLB
       | KRightBracket => CRB
-      | KRange => CSel
+      | KRange => CRange
+      | KColon => CColon
+      | KCase => CKw KwCase | KOf => CKw KwOf | KEndCase => CKw KwEndCase
       | _ => COther
       end
   end.
